@@ -652,7 +652,7 @@ func TestC09(t *testing.T) {
 	}
 
 	// (R1) shape of generated programs
-	rec.Rapid(t, "shape", rec.Scale(400000, 6000000), func(t *rapid.T) {
+	rec.Rapid(t, "shape", rec.Scale(400000, 8000000), func(t *rapid.T) {
 		ts := genProgram(t, avoid, excl)
 		flush()
 		src := joinToks(ts, " ")
@@ -675,7 +675,7 @@ func TestC09(t *testing.T) {
 
 	// (R2) String() round trip of generated programs, a third of them with
 	// token-level mutations, some built on corpus queries
-	rec.Rapid(t, "roundtrip", rec.Scale(400000, 6000000), func(t *rapid.T) {
+	rec.Rapid(t, "roundtrip", rec.Scale(400000, 8000000), func(t *rapid.T) {
 		var ts []tok
 		origin := "gen"
 		if k := rapid.IntRange(0, 9).Draw(t, "fromcorpus"); k == 0 {
@@ -742,7 +742,7 @@ func TestC09(t *testing.T) {
 	})
 
 	// (R3) re-spacing: same tokens, other whitespace and comments
-	rec.Rapid(t, "respace", rec.Scale(400000, 6000000), func(t *rapid.T) {
+	rec.Rapid(t, "respace", rec.Scale(400000, 8000000), func(t *rapid.T) {
 		var ts []tok
 		origin := "gen"
 		switch k := rapid.IntRange(0, 9).Draw(t, "origin"); {
